@@ -511,6 +511,11 @@ func NetspocRule(chain string, r Rule, rng *rand.Rand) string {
 			}
 		}
 		w = append(w, "-p", p)
+		// A match option that only repeats the protocol is redundant
+		// and allowed.
+		if (p == "ipv6-icmp" || strings.EqualFold(p, "tcp") || strings.EqualFold(p, "udp")) && pick(3) == 0 {
+			w = append(w, "-m", p)
+		}
 	}
 	ports := func(opt, p string) {
 		if p == "" {
